@@ -99,6 +99,27 @@ def check(case):
         c = _guard("clone", lambda: clone(obj), facts)
         require(type(c) is type(obj), "clone:type", "%r" % type(c), facts)
         require(R.params_image(c) == img, "clone:params-differ", _diff(R.params_image(c), img), facts)
+        # a clone is independent of its source: no estimator-valued parameter (or member of a list of models) is the same object,
+        # so reconfiguring the clone through nested keys (what a grid search does with clone(base).set_params(**candidate)) leaves the source alone
+        po, pc = obj.get_params(deep=False), c.get_params(deep=False)
+        for k, v in po.items():
+            members = list(zip(v, pc[k])) if isinstance(v, (list, tuple)) and isinstance(pc.get(k), (list, tuple)) and len(v) == len(pc[k]) else [(v, pc.get(k))]
+            for vo, vc in members:
+                if hasattr(vo, "get_params") and not isinstance(vo, type):
+                    require(vo is not vc, "clone:shares-parameter-object", "parameter %r of the clone is the very object the source holds" % k, dict(facts, key=k))
+        nested = sorted(k for k in c.get_params(deep=True) if "__" in k and isinstance(c.get_params(deep=True)[k], (bool, int, float)) and not isinstance(c.get_params(deep=True)[k], str))
+        if nested:
+            k = nested[case["seed"] % len(nested)]
+            v = c.get_params(deep=True)[k]
+            before_src = R.params_image(obj)
+            try:
+                c.set_params(**{k: (not v) if isinstance(v, bool) else (v + 1 if isinstance(v, int) else v * 2.0 + 0.5)})
+            except Exception:  # noqa: BLE001 - the nested object validates in set_params: nothing was reconfigured
+                pass
+            require(R.params_image(obj) == before_src, "clone:set_params-on-clone-changes-source",
+                    "set_params(%s=...) on a clone changed the parameters reported by the object it was cloned from: %s" % (k, _diff(R.params_image(obj), before_src)), dict(facts, key=k))
+            c = clone(obj)
+            labels.add("clone-reconfigured-through-nested-key")
         fresh = R.build(spec)
         require(set(vars(c)) == set(vars(fresh)), "clone:not-unfitted", "attributes %r vs a fresh instance %r" % (sorted(set(vars(c)) ^ set(vars(fresh))), ""), facts)
 
